@@ -59,6 +59,9 @@ def grid_reads(f: Func, gname: str) -> List[ast.AST]:
 RAY_SOURCES: Dict[str, str] = {}
 
 
+RAY_ARRAYS: Dict[str, tuple] = {}
+
+
 def ray_loop(node: ast.AST):
     """the `for ray in rays: light = True; for pos in ray: ...` nest of a ray-tracing function"""
     for n in ast.walk(node):
@@ -92,7 +95,6 @@ def check_ray_function(index, rep, f: Func) -> Optional[ast.For]:
     rep.check(bool(ok), 'C06.R4', VIS, name, outer.lineno, rays_src,
               'the rays are not the fan from the agent position over the grid area',
               f'{name}: rays from the origin')
-    gname_in_loop = src(w.expand(ast.Name(gname, ast.Load())))
     # R4: each ray starts lit
     pre = [s for s in outer.body if s is not inner]
     lit = [s for s in pre if isinstance(s, ast.Assign) and len(s.targets) == 1
@@ -104,38 +106,70 @@ def check_ray_function(index, rep, f: Func) -> Optional[ast.For]:
               f'{name}: ray starts lit')
     if light is None:
         return outer
+    from ..guards import (f_and, parse_guard, prop_assignments, prop_equiv, prop_truth)
     pos = src(inner.target)
-    # statements of the inner body in order
-    upd_idx, count_idx = None, []
-    upd = None
-    for i, s in enumerate(inner.body):
-        if isinstance(s, ast.Assign) and len(s.targets) == 1 and \
-                src(s.targets[0]) == light:
-            upd_idx, upd = i, s
-        if isinstance(s, ast.AugAssign) and isinstance(s.target, ast.Subscript) and \
-                src(s.target.slice) in (f'({pos}.y, {pos}.x)', f'{pos}.yx'):
-            count_idx.append((i, s))
-    lit_counts = [(i, s) for i, s in count_idx if light in {n.id for n in ast.walk(s.value)
-                                                           if isinstance(n, ast.Name)}]
-    rep.check(len(lit_counts) >= 1 and upd_idx is not None and
-              all(i < upd_idx for i, _ in lit_counts), 'C06.R2', VIS, name,
-              inner.lineno, '; '.join(src(s) for s in inner.body),
+    inner_ids = {id(n) for n in ast.walk(inner)}
+    BV = f'{gname}[{pos}].blocks_vision'
+
+    def norm(f):
+        return w.expand_formula(strip_iter(f), stop=[pos, light])
+    # counting events of the inner loop: `array[pos.y, pos.x] += v`
+    counts = []
+    for e in w.events:
+        if e.kind == 'augstore' and id(e.node) in inner_ids and \
+                isinstance(e.target, ast.Subscript):
+            idx = src(w.expand(e.target.slice, stop=[pos]))
+            if idx in (f'({pos}.y, {pos}.x)', f'{pos}.yx', f'({pos}.yx[0], {pos}.yx[1])'):
+                counts.append(e)
+    # updates of the light inside the inner loop, in order
+    upds = [d for d in w.defs.get(light, []) if d[0] == 'value'
+            and id(d[1]) in inner_ids]
+    upd_order = min((d[2] for d in upds), default=None)
+    L = parse_guard(light)
+    lit_counts = []
+    for e in counts:
+        v = e.value
+        g = norm(e.guard)
+        if isinstance(e.node.op, ast.Add) and src(v) in (f'int({light})', light,
+                                                         f'bool({light})'):
+            eff = f_and(g, L)
+        elif isinstance(e.node.op, ast.Add) and src(v) == '1':
+            eff = g
+        else:
+            continue
+        if prop_equiv(eff, L) is None:
+            lit_counts.append(e)
+    rep.check(len(lit_counts) >= 1 and upd_order is not None and
+              all(e.order < upd_order for e in lit_counts), 'C06.R2', VIS, name,
+              inner.lineno, '; '.join(src(s) for s in inner.body)[:300],
               'the cell is not counted with the current light before the light is updated: '
               'the opacity of a cell would decide its own visibility', f'{name}: count before update')
-    for i, s in lit_counts:
-        rep.check(isinstance(s.op, ast.Add) and src(s.value) in (f'int({light})', light),
-                  'C06.R2', VIS, name, s.lineno, src(s),
-                  'the lit count is not incremented by the current light',
-                  f'{name}: lit count')
-    if upd is not None:
-        v = upd.value
-        ok = isinstance(v, ast.BoolOp) and isinstance(v.op, ast.And) and len(v.values) == 2 \
-            and src(v.values[0]) == light and \
-            src(w.expand(v.values[1], stop=[pos])) == f'not {gname}[{pos}].blocks_vision'
-        rep.check(ok, 'C06.R3', VIS, name, upd.lineno, src(upd),
-                  f'light is updated by `{src(v)}`, not `light and not cell.blocks_vision` '
-                  f'(light first: a dark ray never reads opacity; opacity only negated: '
-                  f'monotone)', f'{name}: light update polarity')
+    for e in lit_counts:
+        rep.holds('C06.R2', f'{VIS}:{name}:{e.line}', f'lit count `{src(e.stmt)}`')
+    totals = [e for e in counts if isinstance(e.node.op, ast.Add) and src(e.value) == '1'
+              and prop_equiv(norm(e.guard), ('true',)) is None]
+    RAY_ARRAYS[name] = (src(lit_counts[0].target.value) if lit_counts else None,
+                        src(totals[0].target.value) if totals else None)
+    if upds:
+        # the light after the cell, as a function of (light, opacity of the cell)
+        bad = None
+        alts = []
+        for d in upds:
+            val = w.expand(d[1], stop=[pos, light])
+            alts.append((norm(d[3]), formula_of(val)))
+        want = parse_guard(f'{light} and not {BV}')
+        for asg in prop_assignments(want, *[x for a in alts for x in a]):
+            new = asg[light]
+            for g, v in alts:
+                if prop_truth(g, asg):
+                    new = prop_truth(v, asg)
+            if new != prop_truth(want, asg) and bad is None:
+                bad = asg
+        rep.check(bad is None, 'C06.R3', VIS, name, upds[0][1].lineno,
+                  '; '.join(f'{light} = {src(d[1])}' for d in upds),
+                  f'after a cell the light is not `light and not cell.blocks_vision` '
+                  f'(differs when {bad}): opacity must only ever darken the ray (monotone)',
+                  f'{name}: light update polarity')
     return outer
 
 
@@ -181,26 +215,36 @@ def run(index: RepoIndex, rep) -> None:
               '; '.join(src(e.stmt) for e in stores),
               'the flood fill does not mark exactly the visited position visible',
               'flood fill marks the position')
+    from ..guards import parse_guard, prop_assignments, prop_equiv, prop_implies, prop_truth
     if stores:
-        g = show(strip_iter(stores[0].guard))
-        rep.check(g == want_guard, 'C06.R4', VIS, mv.name, stores[0].line, g,
-                  f'a position is revealed under `{g}`, not unconditionally when inside the '
-                  f'area and not yet visible', 'reveal guard')
+        gf = strip_iter(stores[0].guard)
+        wit = prop_equiv(gf, parse_guard(want_guard))
+        rep.check(wit is None, 'C06.R4', VIS, mv.name, stores[0].line, show(gf),
+                  f'a position is revealed under `{show(gf)}`, not exactly when it is inside '
+                  f'the area and not yet visible (differs when {wit})', 'reveal guard')
     for r in reads:
-        dom = [s for s in stores if s.order < r.order and
-               src(s.target.slice) == f'({src(r.node.slice)}.y, {src(r.node.slice)}.x)']
-        gs = {show(x) for x in _conj(strip_iter(r.guard))}
-        dom = [s for s in dom if {show(x) for x in _conj(strip_iter(s.guard))} <= gs]
+        dom = [s_ for s_ in stores if s_.order < r.order and
+               src(s_.target.slice) == f'({src(r.node.slice)}.y, {src(r.node.slice)}.x)'
+               and prop_implies(strip_iter(r.guard), strip_iter(s_.guard)) is None]
         rep.check(bool(dom), 'C06.R2', VIS, mv.name, r.line, src(r.node),
                   f'`{src(r.node)}.blocks_vision` is read before that cell is marked visible: '
                   f'a hidden cell\'s opacity would influence the view', 'read after reveal')
     rec = [e for e in w.events if e.kind == 'call' and src(e.node.func) == mv.name]
+    BV = f'{gp}[{pp}].blocks_vision'
     for e in rec:
-        g = _conj(strip_iter(e.guard))
-        pol = [x for x in g if 'blocks_vision' in show(x)]
-        ok = len(pol) == 1 and pol[0][0] == 'not' and \
-            show(pol[0][1]) == f'{gp}[{pp}].blocks_vision'
-        rep.check(ok, 'C06.R3', VIS, mv.name, e.line, show(strip_iter(e.guard)),
+        gf = strip_iter(e.guard)
+        # expansion is antitone in the opacity of the current cell and depends on it
+        anti, depends = True, False
+        for asg in prop_assignments(gf, parse_guard(BV)):
+            if asg[BV]:
+                continue
+            lo = prop_truth(gf, asg)
+            hi = prop_truth(gf, dict(asg, **{BV: True}))
+            if hi and not lo:
+                anti = False
+            if lo != hi:
+                depends = True
+        rep.check(anti and depends, 'C06.R3', VIS, mv.name, e.line, show(gf),
                   'the flood fill expands under a condition in which blocks_vision is not '
                   'purely negated (making a cell transparent could hide another)',
                   'expansion polarity')
@@ -213,33 +257,28 @@ def run(index: RepoIndex, rep) -> None:
     if not rec:
         rep.violation('C06.R3', VIS, mv.name, mv.node.lineno, mv.name,
                       'the flood fill does not expand')
+    from ..posenum import positions_of
     for name, f in sorted(mod.functions.items()):
         if not name.startswith('_partially_occluded_next_positions'):
             continue
         p = f.node.args.args[0].arg
-        names = {n.id for n in ast.walk(f.node) if isinstance(n, ast.Name)} - {p, 'Position'}
-        offs_ok = True
-        cells = []
-        for n in ast.walk(f.node):
-            if isinstance(n, ast.Call) and src(n.func) == 'Position' and len(n.args) == 2:
-                for a, coord in zip(n.args, ('y', 'x')):
-                    s_ = src(a).replace(' ', '')
-                    base = f'{p}.{coord}'
-                    if s_ == base:
-                        off = 0
-                    elif s_ in (f'{base}-1', f'-1+{base}'):
-                        off = -1
-                    elif s_ in (f'{base}+1', f'1+{base}'):
-                        off = 1
-                    else:
-                        offs_ok = False
-                        off = None
-                    cells.append(off)
-        rep.check(offs_ok and not names and len(cells) >= 2, 'C06.R3', VIS, name,
+        wn = walk_function(f.node)
+        rets = [e for e in wn.events if e.kind == 'return' and e.value is not None]
+        cells = None
+        why = ''
+        if len(rets) == 1:
+            try:
+                cells = positions_of(f.module, wn.expand(rets[0].value),
+                                     {f'{p}.y': 0, f'{p}.x': 0})
+            except AnalysisError as e:
+                why = str(e)
+        ok = cells is not None and len(cells) >= 2 and \
+            all(dy in (-1, 0, 1) and dx in (-1, 0, 1) for dy, dx in cells)
+        rep.check(ok, 'C06.R3', VIS, name,
                   f.node.lineno, src(f.node.body[-1])[:160],
                   f'neighbour generator {name} reads something other than its position or '
-                  f'steps further than one cell (visibility would not follow a chain of '
-                  f'adjacent cells)', f'{name}: adjacent, grid-free')
+                  f'steps further than one cell (offsets {cells}; {why}): visibility would '
+                  f'not follow a chain of adjacent cells', f'{name}: adjacent, grid-free')
     # partially_occluded: fills from the given position, combines by OR
     w = walk_function(po.node)
     gp2, pp2 = [a.arg for a in po.node.args.args[:2]]
@@ -250,11 +289,24 @@ def run(index: RepoIndex, rep) -> None:
               '; '.join(src(c.node)[:80] for c in calls),
               'the flood fills do not start at the agent position on the given grid',
               'fills start at the origin')
+    filled = {src(c.node.args[0]) for c in calls if c.node.args}
     rets = [e for e in w.events if e.kind == 'return' and e.value is not None]
     for r in rets:
         ex = w.expand(r.value)
         ok = isinstance(ex, ast.BinOp) and isinstance(ex.op, ast.BitOr) or \
             (isinstance(ex, ast.Call) and src(ex.func) in ('np.logical_or',))
+        if not ok and isinstance(ex, ast.Name):
+            # an accumulator: starts all-False, only ever `|=` a filled array
+            ds = w.defs.get(ex.id, [])
+            init = [d for d in ds if d[0] == 'value']
+            upd = [d[1] for d in ds if d[0] == 'aug']
+            other = [e for e in w.events if e.kind in ('store', 'attrstore', 'augstore', 'delete')
+                     and src(e.target).startswith(ex.id)]
+            ok = len(init) == 1 and src(init[0][1].func if isinstance(init[0][1], ast.Call)
+                                        else init[0][1]) == 'np.zeros' and bool(upd) and \
+                all(isinstance(a, ast.AugAssign) and isinstance(a.op, ast.BitOr)
+                    and src(a.value) in filled for a in upd) \
+                and not other and len(ds) == 1 + len(upd)
         rep.check(ok, 'C06.R3', VIS, 'partially_occluded', r.line, src(r.stmt),
                   'the two flood fills are not combined by OR (monotone)', 'fills combined by OR')
 
@@ -296,8 +348,9 @@ def run(index: RepoIndex, rep) -> None:
     for r in rets:
         for ex, g in alts(w.expand(r.value), strip_iter(r.guard)):
             seen.add((unprefix(show(g)), unprefix(src(ex))))
-    want = {('absolute_counts', 'counts_num >= threshold'),
-            ('not (absolute_counts)', 'counts_num / counts_den >= threshold')}
+    num, den = (unprefix(x) if x else x for x in RAY_ARRAYS.get('raytracing', (None, None)))
+    want = {('absolute_counts', f'{num} >= threshold'),
+            ('not (absolute_counts)', f'{num} / {den} >= threshold')}
     rep.check(seen == want, 'C06.R2', VIS, 'raytracing', rt.node.lineno, str(sorted(seen)),
               'ray-traced visibility is not `lit count >= threshold` (monotone in the lit '
               'counts)', 'threshold on lit counts')
@@ -309,11 +362,12 @@ def run(index: RepoIndex, rep) -> None:
               f'deterministic one {RAY_SOURCES.get("raytracing")}: it could show cells the '
               f'deterministic view cannot (or hide cells every ray reaches lit)',
               'same rays as the deterministic variant')
-    if l1 is not None and l2 is not None:
-        rep.check(ast.dump(l1) == ast.dump(l2), 'C06.R5', VIS, 'stochastic_raytracing',
-                  l2.lineno, 'for ray in rays: ...',
-                  'the stochastic variant does not count lit rays with the same loop as '
-                  'raytracing', 'same counting loop')
+    snum, sden = (unprefix(x) if x else x
+                  for x in RAY_ARRAYS.get('stochastic_raytracing', (None, None)))
+    rep.check(l2 is not None and snum is not None and sden is not None, 'C06.R5', VIS,
+              'stochastic_raytracing', srt.node.lineno, 'for ray in rays: ...',
+              'the stochastic variant does not count lit rays and all rays per cell the way '
+              'raytracing does', 'same counting loop')
     w = walk_function(inlined_function(index, srt)[0])
     rets = [e for e in w.events if e.kind == 'return' and e.value is not None]
     okr = False
@@ -323,7 +377,7 @@ def run(index: RepoIndex, rep) -> None:
         got = src(ex)
         if isinstance(ex, ast.Compare) and len(ex.ops) == 1:
             l, r_, op = ex.left, ex.comparators[0], ex.ops[0]
-            probs = 'np.nan_to_num(counts_num / counts_den)'
+            probs = f'np.nan_to_num({snum} / {sden})'
 
             def is_sample(e):
                 return isinstance(e, ast.Call) and src(e.func) == 'rng.random'
